@@ -165,6 +165,86 @@ Proof.
   - apply agent_add_nodup, filter_nodup_map, N.
 Qed.
 
+(* ------------------------------------------------------------------ an agent that may refuse calls *)
+
+(* the removal loop: either it ran over the whole snapshot without a refusal, or it stopped at a
+   refused Remove having processed a prefix *)
+Lemma delete_faulty_prefix c fr : forall snap k acc a1 ok,
+  delete_faulty c fr k snap acc = (a1, ok) ->
+  exists pre post, snap = pre ++ post /\ a1 = fold_left (delete_step c) pre acc /\ (ok = true -> post = []).
+Proof.
+  induction snap as [|e r IH]; simpl; intros k acc a1 ok H.
+  - inversion H; subst. exists [], []. split; [reflexivity|split; [reflexivity|reflexivity]].
+  - destruct (is_dup c e) eqn:D.
+    + destruct (fr k).
+      * inversion H; subst. exists [], (e :: r). split; [reflexivity|split; [reflexivity|discriminate]].
+      * apply IH in H. destruct H as (pre & post & E & A & O). exists (e :: pre), post.
+        split; [simpl; rewrite E; reflexivity|]. split; [|exact O]. simpl. unfold delete_step at 2. rewrite D. exact A.
+    + apply IH in H. destruct H as (pre & post & E & A & O). exists (e :: pre), post.
+      split; [simpl; rewrite E; reflexivity|]. split; [|exact O]. simpl. unfold delete_step at 2. rewrite D. exact A.
+Qed.
+
+(* a call that reports success did exactly what the fault-free upsert does *)
+Lemma upsert_faulty_ok f n a a' : upsert_faulty f n a = (a', true) -> a' = upsert n a.
+Proof.
+  unfold upsert_faulty, upsert_faulty_on, upsert, delete_duplicates. destruct (f_list f); [discriminate|].
+  destruct (delete_faulty (e_comment n) (f_remove f) 0 a a) as [a1 ok] eqn:E.
+  destruct ok; [|discriminate]. destruct (f_add f); [discriminate|]. intro H. inversion H; subst.
+  apply delete_faulty_prefix in E. destruct E as (pre & post & Es & A & O). rewrite (O eq_refl), app_nil_r in Es. subst pre.
+  rewrite A. reflexivity.
+Qed.
+
+(* a call that reports an error added nothing and removed only certificates carrying the label *)
+Lemma upsert_faulty_err f n a a' : NoDup (map e_blob a) -> upsert_faulty f n a = (a', false) ->
+  (forall e, In e a' -> In e a) /\
+  (forall e, In e a -> is_dup (e_comment n) e = false -> In e a').
+Proof.
+  intros N. unfold upsert_faulty, upsert_faulty_on. destruct (f_list f); [intro H; inversion H; subst; split; auto|].
+  destruct (delete_faulty (e_comment n) (f_remove f) 0 a a) as [a1 ok] eqn:E.
+  apply delete_faulty_prefix in E. destruct E as (pre & post & Es & A & _).
+  assert (K : (forall e, In e a1 -> In e a) /\ (forall e, In e a -> is_dup (e_comment n) e = false -> In e a1)).
+  { rewrite A, delete_fold. split.
+    - intros e He. apply filter_In in He. tauto.
+    - intros e He De. apply filter_In. split; [exact He|]. apply negb_true_iff.
+      destruct (hit (e_comment n) pre e) eqn:Hh; [|reflexivity]. exfalso.
+      unfold hit in Hh. apply existsb_exists in Hh. destruct Hh as (x & Hx & Hb). apply andb_true_iff in Hb. destruct Hb as [Dx Bx].
+      apply bs_eqb_eq in Bx. assert (Hxa : In x a) by (rewrite Es; apply in_or_app; left; exact Hx).
+      rewrite (nodup_map_inj a e x N He Hxa Bx) in De. congruence. }
+  destruct ok; [destruct (f_add f); [|discriminate]|]; intro H; inversion H; subst; exact K.
+Qed.
+
+(* the property for an agent that may fail at any call *)
+Theorem agent_replace_faulty f n a : NoDup (map e_blob a) -> e_cert n = true ->
+  let c := e_comment n in let r := upsert_faulty f n a in
+  (snd r = true -> filter (is_dup c) (fst r) = [n] /\ fst r = upsert n a) /\
+  (snd r = false -> (forall e, In e (fst r) -> In e a) /\ (forall e, In e a -> is_dup c e = false -> In e (fst r))).
+Proof.
+  intros N C c r. subst r. destruct (upsert_faulty f n a) as [a' ok] eqn:E. simpl. split; intro H; subst ok.
+  - apply upsert_faulty_ok in E. subst a'. split; [apply (agent_replace n a N C)|reflexivity].
+  - apply (upsert_faulty_err f n a a' N E).
+Qed.
+
+(* ignoring the error of the clean-up: success is reported with two certificates under one label *)
+Definition ex_old : entry := mkEntry [1] [10] true.
+Definition ex_new : entry := mkEntry [1] [11] true.
+Lemma best_effort_leaves_stale :
+  let r := upsert_best_effort (mkFaults false (fun k => Nat.eqb k 0) false) ex_new [ex_old] in
+  snd r = true /\ filter (is_dup [1]) (fst r) = [ex_old; ex_new].
+Proof. vm_compute. split; reflexivity. Qed.
+
+(* ------------------------------------------------------------------ key file modes *)
+Lemma private_file_mode existing umask : others_bits (write_private existing umask) = 0%N.
+Proof.
+  unfold others_bits, write_private, write_file. destruct existing as [m|]; [reflexivity|].
+  apply N.bits_inj_0. intro n. rewrite N.land_spec, N.ldiff_spec.
+  assert (H : (N.testbit 384 n && N.testbit 63 n)%bool = false).
+  { rewrite <- N.land_spec. change (N.land 384 63) with 0%N. apply N.bits_0. }
+  destruct (N.testbit 384 n), (N.testbit 63 n), (N.testbit umask n); simpl in *; congruence.
+Qed.
+
+Lemma plain_write_keeps_mode : others_bits (write_file (Some 420%N) 18 384) <> 0%N.
+Proof. vm_compute. discriminate. Qed.
+
 (* ================================================================== offered and accepted *)
 
 (* the statement about key types in terms of its parts *)
